@@ -22,9 +22,9 @@ ALL = ["C01","C02","C03","C04","C05","C06","C07","C08","C09","C10","C11","C12","
 RELATED = {  # checks run by default for a seed of property X (its own + neighbours that share code)
  "C01": ["C01","C02","C08","C09","C10","C11"], "C02": ["C02","C01","C03","C07"], "C03": ["C03","C02","C01","C10","C15"],
  "C04": ["C04","C05","C06","C07"], "C05": ["C05","C04","C07","C08"], "C06": ["C06","C05","C07"], "C07": ["C07","C05","C12","C02"],
- "C08": ["C08","C01","C05","C17"], "C09": ["C09","C10","C01"], "C10": ["C10","C09","C04","C05","C01"], "C11": ["C11","C01","C15"],
- "C12": ["C12","C07","C08","C10"], "C13": ["C13","C01"], "C14": ["C14","C01","C02"], "C15": ["C15","C16","C03"], "C16": ["C16","C15","C05"],
- "C17": ["C17","C08","C01"], "C18": ["C18","C19"], "C19": ["C19","C18"], "C20": ["C20","C03","C14","C07"],
+ "C08": ["C08","C01","C05","C17","C20"], "C09": ["C09","C10","C01"], "C10": ["C10","C09","C04","C05","C01"], "C11": ["C11","C01","C15"],
+ "C12": ["C12","C07","C08","C10"], "C13": ["C13","C01","C02"], "C14": ["C14","C01","C02"], "C15": ["C15","C16","C03"], "C16": ["C16","C15","C05"],
+ "C17": ["C17","C08","C01","C03"], "C18": ["C18","C19"], "C19": ["C19","C18"], "C20": ["C20","C03","C14","C07"],
 }
 
 def sh(cmd, cwd=None, env=None, timeout=3600):
@@ -106,6 +106,7 @@ def eval_seed(pid, k, checks):
     meta["caught_by"] = [c for c in checks if res[c]["violation"]]
     # pristine: demo must pass
     sh("git checkout -q -- . && git clean -qfd", cwd=REPO)
+    os.makedirs(demo_dir, exist_ok=True)
     shutil.copy(demo, demo_dst)
     rc, out = sh(f"cargo test --offline {dpk} --test zz_demo_seed 2>&1 | tail -8", cwd=REPO)
     meta["demo_pristine_passes"] = rc == 0
